@@ -963,23 +963,13 @@ struct json_object *json_tokener_parse_ex(struct json_tokener *tok, const char *
 				/* We don't save all state from the previous incremental parse
 				   so we need to re-generate it based on the saved string so far.
 				 */
-				char *e_loc = strchr(tok->pb->buf, 'e');
-				if (!e_loc)
-					e_loc = strchr(tok->pb->buf, 'E');
-				if (e_loc)
-				{
-					char *last_saved_char =
-					    &tok->pb->buf[printbuf_length(tok->pb) - 1];
+				char last_saved_char = tok->pb->buf[printbuf_length(tok->pb) - 1];
+				if (strchr(tok->pb->buf, 'e') || strchr(tok->pb->buf, 'E'))
 					is_exponent = 1;
-					pos_sign_ok = neg_sign_ok = 1;
-					/* If the "e" isn't at the end, we can't start with a '-' */
-					if (e_loc != last_saved_char)
-					{
-						neg_sign_ok = 0;
-						pos_sign_ok = 0;
-					}
-					// else leave it set to 1, i.e. start of the new input
-				}
+				/* As in the loop below: a sign may only come right after
+				 * an 'e'/'E' or a '.'; in particular not after a digit. */
+				pos_sign_ok = neg_sign_ok = (last_saved_char == 'e' || last_saved_char == 'E' ||
+				                             last_saved_char == '.');
 			}
 
 			while (c && ((c >= '0' && c <= '9') ||
